@@ -218,16 +218,17 @@ def run(chk, tier, seed):
                 a['refuted'] += 1
                 report(chk, name, info)
     # escaped backslash is a separator under FORCEWIN: `a\\\\b` == `a/b`
-    for p1, p2 in (('a\\\\b', 'a/b'), ('*\\\\b*', '*/b*'), ('a\\\\**\\\\b', 'a/**/b')):
-        nm = 'C17.lang.FORCEWIN_escaped_backslash_in_the_pattern_is_a_separator'
-        a = agg.setdefault(nm, dict(proved=0, refuted=0, open=0))
-        r = R.equal(R.Impl(G.translate(p1, flags=G.W | G.G)[0][0]), R.Impl(G.translate(p2, flags=G.W | G.G)[0][0]))
-        if r is None:
-            a['proved'] += 1
-            chk.case(key=(nm, p1))
-        else:
-            a['refuted'] += 1
-            report(chk, nm, dict(pattern=p1, mode='glob', bytes=False, witness=R.to_str(r[0]), note=f'vs {p2!r}', flags=G.W | G.G))
+    for p1, p2 in (('a\\\\b', 'a/b'), ('*\\\\b*', '*/b*'), ('a\\\\**\\\\b', 'a/**/b'), ('a\\\\?', 'a/?'), ('[ab]\\\\*\\\\', '[ab]/*/')):
+        for wfl in (G.W | G.G, G.W | G.G | G.X, G.W | G.G | G.E | G.D, G.W | G.X | G.C):      # (also under MATCHBASE: a pattern with a separator does not float)
+            nm = 'C17.lang.FORCEWIN_escaped_backslash_in_the_pattern_is_a_separator'
+            a = agg.setdefault(nm, dict(proved=0, refuted=0, open=0))
+            r = R.equal(R.Impl(W.compile_pattern(p1, G._flag_transform(wfl))[0][0]), R.Impl(W.compile_pattern(p2, G._flag_transform(wfl))[0][0]))
+            if r is None:
+                a['proved'] += 1
+                chk.case(key=(nm, p1, wfl))
+            else:
+                a['refuted'] += 1
+                report(chk, nm, dict(pattern=p1, mode='glob', bytes=False, witness=R.to_str(r[0]), note=f'vs {p2!r}', flags=wfl))
     for name, a in agg.items():
         chk.obligation('C17:' + name, 'proved' if not a['refuted'] and a['proved'] else ('refuted' if a['refuted'] else 'undecided'), 'relang', 0.0,
                        detail=f"{a['proved']} patterns proved, {a['refuted']} refuted, {a['open']} open")
